@@ -473,7 +473,7 @@ func init() {
 	reg(&CheckSpec{
 		ID: "C12", PkgDir: "part",
 		Quick:    []HarnessRun{w(1, 2, 1, 0, 0), w(1, 2, 1, 1, 0), w(2, 1, 1, 0, 1), w(1, 1, 2, 0, 0), w(1, 1, 2, 1, 0), preset(1, 1), preset(2, 1), preset(4, 1), preset(5, 1), preset(6, 1), merge7},
-		Thorough: []HarnessRun{preset(3, 1)},
+		Thorough: []HarnessRun{preset(3, 1), w(1, 2, 1, 1, 1), w(2, 1, 1, 1, 0)},
 		Outside:  []string{"outside: trees deeper than the keys of length <= L allow; more than N1 pre-state keys and N2 later operations; channels of write-transaction queries"},
 	})
 }
@@ -498,7 +498,7 @@ func init() {
 		ID: "C13", PkgDir: "lpm",
 		// PLSET 291 = prefix lengths {0,1,5,8}; 99203 = {0,1,7,8,9,15,16}
 		Quick:    []HarnessRun{c13(2, 8, 291, 0, 60), c13(2, 8, 291, 1, 60), c13(2, 8, -1, 0, 30), c13p(1, 2), c13p(2, 2), c13p(3, 2), c13it(3)},
-		Thorough: []HarnessRun{c13(2, 16, 99203, 0, 30)},
+		Thorough: []HarnessRun{c13(2, 16, 99203, 0, 30), c13(2, 16, 99203, 1, 30)},
 		Outside: []string{"outside: keys wider than W bits (8 quick, 16 thorough; the trie logic is width-generic, width is a loop bound only), prefix lengths outside the listed PLSET in runs that restrict it, more than N operations; Lookup of a non-stored shorter-than-full key is not asserted (undefined by the statement); netip conversion helpers"},
 	})
 	c17m := func(n, l, ops int) HarnessRun {
@@ -517,7 +517,7 @@ func init() {
 			// JSON / YAML round trips: the marshalling methods are interpreted, the library calls they make run on the host
 			{Entry: "VerifC17Codec", Params: map[string]int{"N": 2}, Covers: []string{"C17.codec.empty", "C17.codec.singleton", "C17.codec.tree", "C17.codec.end"}, DiffRuns: 40},
 		},
-		Thorough: []HarnessRun{},
+		Thorough: []HarnessRun{{Entry: "VerifC17Set", Params: map[string]int{"N": 2, "L": 2}, Covers: []string{"C17.set.end"}, DiffRuns: 40}},
 		Known: []KnownProbe{{ID: "KF-frommap-singleton", Entry: "VerifKFFromMapSingleton"}, {ID: "KF-maptxn-reuse", Entry: "VerifKFMapTxnReuse"}},
 		Outside: []string{"JSON/YAML round-trip clause: the statedb methods (MarshalJSON, UnmarshalJSON, MarshalYAML, UnmarshalYAML of Map and Set) are interpreted; encoding/json and yaml.v3 themselves are environment, executed by the host on concrete copies of the VM values (symbolic key bytes and numbers are concretised at that boundary: one path per value the solver finds feasible). Bounds: <= N entries (2 quick, 3 thorough), keys from {a,b,c,aa,ba,ca}, values {A in 0..2} x {plain, string field, nested map}; yaml.Unmarshal's callback into UnmarshalYAML is made by the harness (document node -> sequence node)",
 			"outside: keys longer than L; hash maps with more than 2 entries in FromMap; Map[string,uint64], Map[string,struct] and Set[string] instantiations only"},
@@ -546,6 +546,8 @@ func init() {
 		},
 		Thorough: []HarnessRun{
 			c01(map[string]int{"N": 2, "PRE": 6, "OPMAX": 1}, 10),
+			c01(map[string]int{"N": 1, "PRE": 2, "OPMAX": 3}, 10),
+			c01(map[string]int{"N": 2, "PRE": 3, "OPMAX": 1}, 10),
 			{Entry: "VerifC01Reader", Params: map[string]int{"N": 2}, Covers: []string{"C01.reader.end"}, NoNative: true, Preempt: 2, Budget2: 2, Deadlock: true},
 		},
 		Known: []KnownProbe{{ID: "KF-lpm-tail-alias", Entry: "VerifC01LpmEntryStep"}},
@@ -587,7 +589,7 @@ func init() {
 		Quick:    []HarnessRun{c04(map[string]int{"N": 1, "L": 1}, 40), c04(map[string]int{"N": 1, "PRE": 1, "NILKEYS": 0, "NTAGSMAX": 1}, 20), ks, lpmRun(map[string]int{"N": 2, "PRE": 1, "OPSEQ": 1, "NPMIN": 1}), lpmRun(map[string]int{"N": 1, "PRE": 2}),
 			// 18 primary keys "p", "pA".."pQ" (a node48 carrying a value): one symbolic delete around it
 			c04(map[string]int{"N": 1, "L": 1, "BIGPRE": 17, "NTAGSMAX": 0, "NILKEYS": 0, "REJECTED": 0, "OPMIN": 2}, 10)},
-		Thorough: []HarnessRun{c04(map[string]int{"N": 1, "L": 2, "BIGPRE": 17, "NTAGSMAX": 0, "NILKEYS": 0, "REJECTED": 0, "OPMIN": 2}, 10)},
+		Thorough: []HarnessRun{c04(map[string]int{"N": 1, "PRE": 2, "NTAGSMAX": 1}, 20), c04(map[string]int{"N": 1, "L": 2, "BIGPRE": 17, "NTAGSMAX": 0, "NILKEYS": 0, "REJECTED": 0, "OPMIN": 2}, 10)},
 		Known: []KnownProbe{},
 		Outside: []string{"LPM index at table level: VerifC04LPM (objects with 0..2 prefixes over 8-bit data, lengths {4,8}, possibly masking to the same key; Get/List = longest match, Prefix = covered); AnyTable string-keyed queries; key sets with more than 2 keys; more than N symbolic writes after PRE concrete objects; keys longer than L",
 			"the order assertion is on the stored index keys (bytewise ascending), which by C18 is (index key, primary key) order"},
@@ -608,7 +610,8 @@ func init() {
 			// the same delivery clause with the graveyard collector running (C08's harness): Next through a WriteTxn with a pending delete, then GC, then a lagging Next
 			{Entry: "VerifC08Graveyard", Params: map[string]int{"N": 2, "NIT": 2, "STEPMAX": 6, "CAS": 0}, Covers: []string{"C08.next-with-writetxn", "C08.end"}, NoNative: true, Preempt: 0, Deadlock: true},
 			c08partial},
-		Thorough: []HarnessRun{},
+		Thorough: []HarnessRun{c07(map[string]int{"N": 3, "PRE": 0, "CAS": 0}, 30), c07(map[string]int{"N": 2, "PRE": 2, "L": 2, "CAS": 0}, 30),
+			{Entry: "VerifC07Changes", Params: map[string]int{"N": 2, "PRE": 2, "CAS": 1}, Covers: []string{"C07.rejected-cas", "C07.end"}, DiffRuns: 30}},
 		Known:    []KnownProbe{{ID: "KF-next-uncommitted-deletes", Entry: "VerifKFNextUncommitted"}},
 		Outside: []string{"outside: interleaving with graveyard collection and with other iterators being created/closed (one iterator, no collector runs: see C08); the Observable wrapper; finalizer-driven close; more than N steps after PRE concrete objects; keys longer than L",
 			"steps: write txn (insert/delete, commit/abort) | Next(fresh ReadTxn) fully consumed | Next(open WriteTxn with a pending write) | Next partially consumed (1 element)"},
@@ -646,6 +649,7 @@ func init() {
 		Thorough: []HarnessRun{
 			{Entry: "VerifC10Threads", Params: map[string]int{"T": 2, "LISTMAX": 3, "KINDMAX": 2}, Covers: []string{"C10.end"}, NoNative: true, Preempt: 1, Budget2: 2, Deadlock: true},
 			{Entry: "VerifC10Threads", Params: map[string]int{"T": 2, "NTAB": 1, "LISTMAX": 0, "KINDMAX": 2, "COMMITONLY": 1}, Covers: []string{"C10.end"}, NoNative: true, Preempt: 2, Budget2: 3, Deadlock: true},
+			{Entry: "VerifC10Threads", Params: map[string]int{"T": 2, "LISTMAX": 7, "KINDMAX": 0}, Covers: []string{"C10.end"}, NoNative: true, Preempt: 1, Budget2: 3, Deadlock: true},
 		},
 		Known: []KnownProbe{{ID: "KF-commit-drops-new-table", Entry: "VerifKFCommitDropsNewTable"}},
 		Outside: []string{"outside: more than 2-3 threads / 3 tables; more than the preemption budget (2 quick, 3 thorough) of voluntary switches per schedule, scheduling points = lock acquisitions and goroutine starts (a ReadTxn/root load is atomic); weak-memory effects",
@@ -661,6 +665,7 @@ func init() {
 		},
 		Thorough: []HarnessRun{
 			{Entry: "VerifC08Graveyard", Params: map[string]int{"N": 2, "NIT": 1}, Covers: []string{"C08.end"}, NoNative: true, Preempt: 1, Deadlock: true},
+			{Entry: "VerifC10Threads", Params: map[string]int{"T": 3, "LISTMAX": 1, "KINDMAX": 0}, Covers: []string{"C10.end"}, NoNative: true, Preempt: 1, Budget2: 2, Deadlock: true},
 		},
 		Outside: []string{"outside: starvation/fairness under real schedulers; more than 3 threads; the lock-order argument (acyclic acquisition graph over every explored path, no channel/timer wait while a lock is held) extends the deadlock verdict beyond the explored thread counts only under the assumption that mutexes and the non-blocking channel sends seen on the explored paths are the only waiting primitives reachable from these entry points",
 			"the solver contributes little here: table lists and schedules are small enumerations; the value is the controlled execution of the real lock code"},
@@ -681,7 +686,8 @@ func init() {
 			{Entry: "VerifC08TwoTables", Covers: []string{"C08.two.gc-window", "C08.two.end"}, NoNative: true, Deadlock: true},
 		},
 		Thorough: []HarnessRun{
-			{Entry: "VerifC08TwoTables", Params: map[string]int{"ROUNDS": 2}, Covers: []string{"C08.two.end"}, NoNative: true, Deadlock: true},
+			{Entry: "VerifC08Graveyard", Params: map[string]int{"N": 3, "NIT": 1, "SCRIPT": 1, "STEPMAX": 6, "CAS": 1}, Covers: []string{"C08.end"}, NoNative: true, Preempt: 0, Deadlock: true},
+			{Entry: "VerifC08Graveyard", Params: map[string]int{"N": 3, "NIT": 2, "STEPMAX": 6, "CAS": 0}, Covers: []string{"C08.end"}, NoNative: true, Preempt: 0, Deadlock: true},
 			{Entry: "VerifC08Graveyard", Params: map[string]int{"N": 3, "NIT": 2, "EARLY": 1}, Covers: []string{"C08.end"}, NoNative: true, Preempt: 0, Deadlock: true},
 			{Entry: "VerifC08Graveyard", Params: map[string]int{"N": 3, "NIT": 2}, Covers: []string{"C08.end"}, NoNative: true, Preempt: 0, Deadlock: true},
 		},
@@ -717,7 +723,7 @@ func init() {
 	reg(&CheckSpec{
 		ID: "C06", PkgDir: "statedb",
 		Quick:    []HarnessRun{c06(2, 1), c02(1), c06ps(1, 1, 2), c06ps(2, 1, 2)},
-		Thorough: []HarnessRun{},
+		Thorough: []HarnessRun{c06ps(1, 2, 1), c06ps(2, 2, 1), c02(2)},
 		Outside: []string{"outside: channels obtained from write-transaction queries; a waiting goroutine is modelled by the sync observer (every point at which it could wake up relative to the committer's synchronisation operations); pre-state of two objects; more than N later writes; nothing is asserted about channels that close although the result did not change (allowed)"},
 	})
 }
@@ -745,7 +751,7 @@ func init() {
 		"VM-only vocabulary (virtual time): counterexamples of VerifC14Rounds are replayed concretely in the VM; VerifKFRetryStatusLost also replays natively"}
 	reg(&CheckSpec{ID: "C14", PkgDir: "reconciler",
 		Quick:    []HarnessRun{rounds(14, base), rounds(14, two), rounds(14, batch), rounds(14, rs1), probe},
-		Thorough: []HarnessRun{rounds(14, mid), rounds(14, bo)},
+		Thorough: []HarnessRun{rounds(14, mid), rounds(14, bo), rounds(14, map[string]int{"R": 3, "KEYS": 1, "W": 2, "F": 2, "INJECT": 1, "TWO": 1}), rounds(14, map[string]int{"R": 3, "KEYS": 2, "W": 2, "F": 2, "INJECT": 0, "BATCH": 1})},
 		Known:    []KnownProbe{{ID: "KF-retry-status-lost", Entry: "VerifKFRetryStatusLost"}},
 		Outside:  outside})
 	reg(&CheckSpec{ID: "C15", PkgDir: "reconciler",
